@@ -225,8 +225,27 @@ FAMILIES = {'C05': ('cache', cache_histories, 1, 1), 'C18': ('load', load_histor
 CLAUSE = {'C05': 'C05_ThreadSafeLookup', 'C18': 'C18_ThreadSafeLoad', 'C19': 'C19_PropertiesAtomic', 'C02': 'C02_DecodersIndependent'}
 
 
+def check_model(ctx: Ctx) -> dict:
+    """spec/Threads.tla: the accessor that copies the bucket before it filters is linearizable and never raises, under every
+    interleaving with up to three writes; the accessor that iterates the live dict breaks both (the unguarded configurations
+    must fail: once with the RuntimeError, once -- size restored by a second write -- with a result no moment explains)."""
+    r = tlc.model_check('Threads', 'MC_Threads', workers=4, timeout=600)
+    if not r['ok']:
+        raise Machinery('Threads model: TLC reports %s violated' % r['violated'])
+    never = sorted(a for a in ('Write', 'Invoke', 'Copy', 'Visit') if r['actions'].get(a, 0) == 0)
+    if never:
+        raise Machinery('Threads model: actions never taken: %s' % never)
+    for cfg, inv in (('MC_Threads_live_defect', 'NoError'), ('MC_Threads_live_defect2', 'Linearizable')):
+        d = tlc.model_check('Threads', cfg, workers=4, timeout=600, coverage=False)
+        if d['ok'] or d['violated'] != inv:
+            raise Machinery('Threads/%s must violate %s (got %s)' % (cfg, inv, d['violated']))
+    return {'distinct_states': r['distinct'], 'states_generated': r['states'], 'actions': r['actions'],
+            'live_iteration_configs_violate': ['NoError', 'Linearizable']}
+
+
 def run(ctx: Ctx, own: str) -> None:
     fam, gen, q_stride, t_stride = FAMILIES[own]
+    model = check_model(ctx) if own in ('C05', 'C18') else None
     hs = gen(t_stride if ctx.thorough else q_stride)
     if not hs:
         raise Machinery('no pre-emption schedule was produced for %s' % own)
@@ -249,6 +268,7 @@ def run(ctx: Ctx, own: str) -> None:
         ctx.report('%s/preempted' % clause, '%s: %s, thread A pre-empted at its opcode #%d: %s returned %s' % (
             clause, h['what'], h['k'], who, r['exc'] or r['val']), {'thread_history': h})
     ctx.coverage['thread_schedules'] = {
+        'design_model': model,
         'histories': len(hs), 'family': fam, 'opcode_stride': t_stride if ctx.thorough else q_stride, 'rejected': bad,
         'distinct_operations': len({h['what'] for h in hs}),
         'what': 'every schedule in which operation A (own thread, traced per opcode inside the library) is pre-empted once, at every '
